@@ -1,7 +1,7 @@
 #!/bin/sh
 # Parallel variant of seed_matrix.sh: each seeded change is applied to its own scratch worktree of /repo HEAD (plus /repo's
-# uncommitted changes) and the quick check of its property runs against that worktree (./check --repo).  Evidence files are
-# rewritten by these runs: re-run the quick checks on /repo afterwards.  usage: SEEDS="seeded/C01-m1 ..." JOBS=4 tools/seed_matrix_par.sh
+# uncommitted changes) and the quick check of its property runs against that worktree (./check --repo).  Evidence of runs against
+# another tree than /repo is kept apart (removed at the end).  usage: SEEDS="seeded/C01-m1 ..." JOBS=4 tools/seed_matrix_par.sh
 cd /verif
 mkdir -p /tmp/mx; git -C /repo worktree prune
 for D in ${SEEDS:-seeded/C*-m?}; do echo $D; done | xargs -P ${JOBS:-4} -I{} sh -c '
@@ -13,4 +13,4 @@ for D in ${SEEDS:-seeded/C*-m?}; do echo $D; done | xargs -P ${JOBS:-4} -I{} sh 
   V=$(grep -c "^VIOLATION" /tmp/mx/$ID.out)
   LABELS=$(grep "^  H" /tmp/mx/$ID.out | sed -E "s/^  (H[^:]*): .([^'"'"']*).*/\1:\2/" | sort -u | head -4 | tr "\n" " ")
   echo "$ID check=$PROP exit=$RC violations=$V $LABELS" | tee /verif/$D/detect.txt'
-rm -rf /tmp/mx; git -C /repo worktree prune
+rm -rf /tmp/mx /var/tmp/repid-verif-evidence-other; git -C /repo worktree prune
